@@ -326,7 +326,7 @@ func Supervise(self string, chk *Check, tier string, seed int64) int {
 			continue
 		}
 		file := writeReplay(v, 0)
-		if !v.Crash {
+		if !v.Crash && !v.Sound {
 			ok := 0
 			for i := 0; i < 5; i++ {
 				rep, _ := replayInFresh(self, file)
